@@ -417,7 +417,35 @@ def check_events(ctx):
     ctx.ob("C18.E1", ga.qualname, ok, "events.<name> always yields the one Event object of that name (registration and fire meet)" if ok else "EventProducer.__getattr__ does not create-once-and-return the named Event", where=ga.where)
 
 
+def check_wrappers_atomic(ctx):
+    """A refused request raises and changes nothing: in the machines' request methods every write to the machine's own
+    fields happens after _perform_transition returned (it raises on an unknown name / wrong source)."""
+    from .. import inline
+
+    repo = ctx.repo
+    n = 0
+    for mname in MACHINES:
+        cls = repo.cls(mname)
+        for name, meth in cls.methods.items():
+            if name.startswith("__") or name.startswith("_on_"):
+                continue
+            fn = inline.expand(repo, meth, keep={"_perform_transition"})[0]
+            cfg = cfg_of(fn)
+            perf = [x for x in cfg.real_nodes() if any(c == "self._perform_transition" for c in x.call_names())]
+            if not perf:
+                continue
+            n += 1
+            ctx.touch(meth)
+            early = [x for x in cfg.real_nodes() if isinstance(x.ast, (ast.Assign, ast.AugAssign)) and any((dotted(t) or "").startswith("self.") for t in rules.assigned_targets(x.ast))
+                     and not any(cfg.dominates(p, x) for p in perf)]
+            ctx.ob("C18.P1", meth.qualname, not early, "the machine's fields are written only after the transition was performed" if not early else
+                   f"`{early[0].text()}` is executed before the transition is checked: a request that is refused (WrongSourceStateError) has already changed the machine",
+                   key="write-after-transition", where=meth.where)
+    ctx.floor("request methods of the shipped machines", n, 20)
+
+
 def run(ctx):
+    check_wrappers_atomic(ctx)
     check_events(ctx)
     check_transition_lookup(ctx)
     check_perform(ctx)
